@@ -632,6 +632,9 @@ pub fn determinism(p: &dyn Prop, seed: u64, n: u64, threads: usize, print: bool)
                 let c = run_trace(p, &scn, sched_seed, a.trace.clone());
                 if a.digest != b.digest || a.digest != c.digest || c.diverged || scn != scn2 {
                     bad.fetch_add(1, Ordering::SeqCst);
+                    if print {
+                        eprintln!("MISMATCH index {} a={:x} b={:x} c={:x} diverged={}", i, a.digest, b.digest, c.digest, c.diverged);
+                    }
                 }
                 results.lock().unwrap()[i as usize] = a.digest;
             });
